@@ -477,7 +477,7 @@ func main() {
 			}
 			if len(lost) > 0 {
 				sort.Strings(lost)
-				rep.Finding("C08-F1", fmt.Sprintf("%s: %d of %d concurrent STORE +FLAGS were answered OK but their keyword is not on the message afterwards (%v): the flag update reads, computes and writes back without a transaction", rd.name, len(lost), k, lost), []string{"round store-keywords"})
+				rep.Violate("impl-violation", "acknowledged flag addition in effect (Props.C08.conditional_store_keeps_acked)", fmt.Sprintf("%s: %d of %d concurrent STORE +FLAGS were answered OK but their keyword is not on the message afterwards (%v)", rd.name, len(lost), k, lost), []string{"round store-keywords"})
 			}
 			return []string{u}, []string{"INBOX"}
 		})
